@@ -6,7 +6,6 @@ import (
 	"go/constant"
 	"go/token"
 	"go/types"
-	"sort"
 	"strings"
 
 	"golang.org/x/tools/go/ssa"
@@ -38,13 +37,44 @@ const (
 
 func runC24(c *an.Ctx) {
 	p := c.P
-	enc, dec := p.Func(c24Pkg, "", "encode"), p.Func(c24Pkg, "", "decode")
+	// the codec is found by role: the package functions that call
+	// multibase.Encode / multibase.Decode
+	var enc, dec *ssa.Function
+	for _, f := range p.PkgFuncs(c24Pkg) {
+		if len(an.Calls(f, an.M(c24Mb, "", "Encode"))) > 0 && enc == nil {
+			enc = f
+		}
+		if len(an.Calls(f, an.M(c24Mb, "", "Decode"))) > 0 && dec == nil {
+			dec = f
+		}
+	}
+	c24Enc, c24Dec = enc, dec
 	if !c.Need(enc != nil && dec != nil, "dsindex.encode / dsindex.decode") {
 		return
 	}
-	idx := p.Named(c24Pkg, "indexer")
 	iface := p.Named(c24Pkg, "Indexer")
-	if !c.Need(idx != nil && iface != nil, "dsindex.indexer / dsindex.Indexer") {
+	if !c.Need(iface != nil, "dsindex.Indexer") {
+		return
+	}
+	// the implementation is found by role: the struct type of the package
+	// implementing Indexer
+	c24Impl = ""
+	if pk := p.Pkg(c24Pkg); pk != nil {
+		sc := pk.Types.Scope()
+		for _, n := range sc.Names() {
+			tn, ok := sc.Lookup(n).(*types.TypeName)
+			if !ok || tn.IsAlias() {
+				continue
+			}
+			if _, isStruct := tn.Type().Underlying().(*types.Struct); !isStruct {
+				continue
+			}
+			if types.Implements(types.NewPointer(tn.Type()), iface.Underlying().(*types.Interface)) && c24Impl == "" {
+				c24Impl = n
+			}
+		}
+	}
+	if !c.Need(c24Impl != "", "a struct of dsindex implementing Indexer") {
 		return
 	}
 	fns := p.PkgFuncs(c24Pkg)
@@ -89,7 +119,7 @@ func runC24(c *an.Ctx) {
 				"query prefix is encode(..), empty, or a raw key", "query.Query.Prefix is set from a string that did not pass through encode ("+why+"): prefix queries return pairs of other keys")
 		})
 	}
-	c.Min("O1 key/prefix sinks", nSink, 7)
+	c.Min("O1 key/prefix sinks", nSink, 4)
 
 	// ------------------------------------------------------------------ O1 sources -> decode
 	nOut := 0
@@ -172,11 +202,12 @@ func runC24(c *an.Ctx) {
 		"ForEach": "all-on-empty", "HasAny": "all-on-empty", "DeleteAll": "",
 	}
 	it := iface.Underlying().(*types.Interface)
-	nChild, nGuard := 0, 0
+	touches := c24TouchesDs(fns)
+	nChild, nGuard, nOps := 0, 0, 0
 	for i := 0; i < it.NumMethods(); i++ {
 		m := it.Method(i)
 		want, known := table[m.Name()]
-		fn := p.Func(c24Pkg, "indexer", m.Name())
+		fn := p.Func(c24Pkg, c24Impl, m.Name())
 		if !c.Need(fn != nil, "indexer."+m.Name()) {
 			continue
 		}
@@ -193,13 +224,29 @@ func runC24(c *an.Ctx) {
 			continue
 		}
 		name := an.FuncName(fn)
-		// key shape
-		for _, call := range an.Calls(fn, an.M(c24Ds, "Key", "ChildString")) {
-			nChild++
-			ok, why := c24KeyShape(call, sp)
-			c.Check(ok, "O3", "R-SIB", name, "NewKey(encode(key)).ChildString(encode(value))", call.Pos(),
-				"entry key is /encode(key)/encode(value)", "entry key shape differs from the siblings ("+why+"): Add/Delete/HasValue address different datastore keys for the same pair")
-		}
+		// key shape of every datastore operation reached from this method
+		// (local helpers are followed with their arguments bound)
+		c24EffOps(fn, nil, 0, func(call ssa.CallInstruction, env *c24Env) {
+			ci := an.Callee(call)
+			switch ci.Name {
+			case "Put", "Has", "Get", "GetSize", "Delete":
+			default:
+				return
+			}
+			args := an.Args(call)
+			if len(args) < 2 || !an.TypeIs(args[1].Type(), c24Ds, "Key") {
+				return
+			}
+			nOps++
+			kind, why := c24KeyKind(c24X{args[1], env}, sp, 0)
+			c.Check(kind != "", "O5", "R-FLOW", name, ci.Name+".key<=pair-key|Entry.Key", call.Pos(),
+				"the datastore key is a pair key or a key returned by the query",
+				"a datastore "+ci.Name+" is addressed by something that is neither NewKey(encode(key)).ChildString(encode(value)) nor the raw key of a query result ("+why+"): the operation addresses a different entry than its siblings / DeleteKey deletes nothing while reporting a count")
+			if kind == "pair" {
+				nChild++
+				c.OK("O3", "R-SIB", name, "NewKey(encode(key)).ChildString(encode(value))", call.Pos(), "entry key is /encode(key)/encode(value) of this method's key and value")
+			}
+		})
 		if want != "k" && want != "kv" {
 			continue
 		}
@@ -220,14 +267,14 @@ func runC24(c *an.Ctx) {
 			ci := an.Callee(call)
 			if ci.Invoke && strings.HasPrefix(ci.Pkg, c24Ds) {
 				ops = append(ops, call)
-			} else if ci.Static != nil && ci.Static.Pkg == fn.Pkg && ci.Static != enc && ci.Static != dec {
+			} else if ci.Static != nil && ci.Static.Pkg == fn.Pkg && touches[ci.Static] {
 				ops = append(ops, call)
 			}
 		}
 		c.Min("O3 datastore accesses in indexer."+m.Name(), len(ops), 1)
 		for k, prm := range need {
 			what := []string{"key", "value"}[k]
-			edges := c24NonEmptyEdges(fn, prm)
+			edges := c24NonEmptyDeep(fn, prm, 0)
 			ok := len(edges) > 0
 			for _, op := range ops {
 				if !an.GuardedBy(fn, nil, op, edges) {
@@ -239,12 +286,12 @@ func runC24(c *an.Ctx) {
 				"no datastore access is reachable with an empty "+what, "the datastore is accessed although the "+what+" may be empty: the empty key means 'all keys' for ForEach/HasAny, so an entry stored under it breaks the multimap view")
 		}
 	}
-	c22SweepImplementers(c, "O3", iface, c24Pkg+".indexer")
-	c.Min("O3 ChildString sites", nChild, 3)
+	c22SweepImplementers(c, "O3", iface, c24Pkg+"."+c24Impl)
+	c.Min("O3 pair-keyed datastore operations", nChild, 2)
+	c.Min("O5 datastore operations reached from Indexer methods", nOps, 4)
 	c.Min("O3 empty-string guards", nGuard, 8)
 
 	c24Queries(c, fns)
-	c24KeyOps(c, fns)
 	c24CallbackProtocol(c, fns)
 	c24Namespace(c, fns)
 }
@@ -253,8 +300,18 @@ func runC24(c *an.Ctx) {
 // several indexes (recursive, direct, name) share one datastore and are only
 // separated by that name.
 func c24Namespace(c *an.Ctx, fns []*ssa.Function) {
-	fld := c.P.Field(c24Pkg, "indexer", "dstore")
-	if !c.Need(fld != nil, "indexer.dstore") {
+	// the datastore field of the implementation, by type
+	var fld *types.Var
+	if n := c.P.Named(c24Pkg, c24Impl); n != nil {
+		if st, ok := n.Underlying().(*types.Struct); ok {
+			for i := 0; i < st.NumFields(); i++ {
+				if an.TypeIs(st.Field(i).Type(), c24Ds, "Datastore") || an.TypeIs(st.Field(i).Type(), c24Ds, "Batching") {
+					fld = st.Field(i)
+				}
+			}
+		}
+	}
+	if !c.Need(fld != nil, "datastore field of "+c24Impl) {
 		return
 	}
 	n := 0
@@ -381,53 +438,6 @@ func c24Queries(c *an.Ctx, fns []*ssa.Function) {
 	c.Min("O4 datastore queries", nQ, 2)
 }
 
-// O5: the key of every direct datastore operation (Put/Has/Get/Delete) is
-// either the pair key /encode(key)/encode(value) (shape checked by O3) or a
-// raw key of a query result.
-func c24KeyOps(c *an.Ctx, fns []*ssa.Function) {
-	n := 0
-	for _, fn := range fns {
-		name := an.FuncName(fn)
-		for _, call := range an.AllCalls(fn) {
-			ci := an.Callee(call)
-			if !ci.Invoke || !strings.HasPrefix(ci.Pkg, c24Ds) {
-				continue
-			}
-			switch ci.Name {
-			case "Put", "Has", "Get", "GetSize", "Delete":
-			default:
-				continue
-			}
-			args := an.Args(call)
-			if len(args) < 2 || !an.TypeIs(args[1].Type(), c24Ds, "Key") {
-				continue
-			}
-			n++
-			ok, why := false, "key is "+an.PathOf(args[1])
-			for _, r := range an.Roots(args[1], nil) {
-				if cs, isCall := an.IsCallTo(r, an.M(c24Ds, "Key", "ChildString")); isCall && cs != nil {
-					ok = true // pair key; its shape is obligation O3
-					continue
-				}
-				if nk, isNK := an.IsCallTo(r, an.M(c24Ds, "", "NewKey")); isNK {
-					if c24IsEntryKeyLoad(nk.Call.Args[0]) {
-						ok = true
-						continue
-					}
-					ok, why = false, "NewKey of "+an.PathOf(nk.Call.Args[0])+" (a prefix or key component, not a stored pair)"
-					break
-				}
-				ok = false
-				break
-			}
-			c.Check(ok, "O5", "R-FLOW", name, ci.Name+".key<=pair-key|Entry.Key", call.Pos(),
-				"the datastore key is a pair key or a key returned by the query",
-				"a datastore "+ci.Name+" is addressed by something that is neither NewKey(encode(key)).ChildString(encode(value)) nor the raw key of a query result ("+why+"): DeleteKey/DeleteAll would delete nothing (or the wrong entry) while reporting a count")
-		}
-	}
-	c.Min("O5 direct datastore operations", n, 4)
-}
-
 // O6: ForEach stops exactly when the callback returns false.
 func c24CallbackProtocol(c *an.Ctx, fns []*ssa.Function) {
 	n := 0
@@ -466,6 +476,12 @@ func c24CallbackProtocol(c *an.Ctx, fns []*ssa.Function) {
 }
 
 // ---------------------------------------------------------------- O1 provenance
+
+// codec functions of the analysed tree (set by runC24)
+var c24Enc, c24Dec *ssa.Function
+
+// name of the struct implementing Indexer (set by runC24)
+var c24Impl string
 
 type c24Walker struct {
 	c   *an.Ctx
@@ -549,7 +565,7 @@ func (w *c24Walker) encoded(fn *ssa.Function, v ssa.Value, depth int) (bool, str
 		return false, "constant " + x.String()
 	case *ssa.Call:
 		ci := an.Callee(x)
-		if ci.Static != nil && ci.Name == "encode" && ci.Static.Pkg == fn.Pkg && ci.Recv == "" {
+		if ci.Static != nil && ci.Static == c24Enc {
 			return true, ""
 		}
 		return false, "result of " + ci.String()
@@ -640,8 +656,12 @@ func c24Unexported(fn *ssa.Function) bool {
 // edge of that decode, and X = path.Base(Entry.Key) ("base") or
 // path.Base(path.Dir(Entry.Key)) ("base(dir)").
 func c24Decoded(fn *ssa.Function, v ssa.Value, use ssa.Instruction, want string) (bool, string) {
+	return c24DecodedD(fn, v, use, want, 0)
+}
+
+func c24DecodedD(fn *ssa.Function, v ssa.Value, use ssa.Instruction, want string, depth int) (bool, string) {
 	e, ok := v.(*ssa.Extract)
-	if !ok || e.Index != 0 {
+	if !ok {
 		return false, "not a decode result: " + an.PathOf(v)
 	}
 	call, ok := e.Tuple.(*ssa.Call)
@@ -649,12 +669,38 @@ func c24Decoded(fn *ssa.Function, v ssa.Value, use ssa.Instruction, want string)
 		return false, "not a decode result"
 	}
 	ci := an.Callee(call)
-	if ci.Static == nil || ci.Name != "decode" || ci.Static.Pkg != fn.Pkg {
+	if ci.Static == nil || ci.Static.Pkg != fn.Pkg {
 		return false, "result of " + ci.String()
 	}
 	errs := an.ErrResult(call)
 	if len(errs) == 0 || !an.GuardedBy(fn, call, use, an.NilEdges(fn, errs, true)) {
-		return false, "decode error not checked before use"
+		return false, ci.Name + " error not checked before use"
+	}
+	if ci.Static != c24Dec {
+		// a local helper: the result must be a decoded component at every
+		// success return of the helper
+		h := ci.Static
+		if depth > 3 || h.Blocks == nil {
+			return false, "result of " + ci.String()
+		}
+		n := 0
+		for _, r := range an.Returns(h) {
+			k := len(r.Results)
+			if k <= e.Index || !an.IsNilConst(r.Results[k-1]) {
+				continue
+			}
+			n++
+			if ok, why := c24DecodedD(h, r.Results[e.Index], r, want, depth+1); !ok {
+				return false, "via " + h.Name() + ": " + why
+			}
+		}
+		if n == 0 {
+			return false, "helper " + h.Name() + " has no success return"
+		}
+		return true, ""
+	}
+	if e.Index != 0 {
+		return false, "not result 0 of decode"
 	}
 	// shape of the decoded component
 	arg := call.Call.Args[0]
@@ -668,13 +714,27 @@ func c24Decoded(fn *ssa.Function, v ssa.Value, use ssa.Instruction, want string)
 		got = "base(dir)"
 		in = d.Call.Args[0]
 	}
-	if !c24IsEntryKeyLoad(in) {
+	if !c24EntryKeyValue(in) {
 		return false, "decode input does not come from query.Entry.Key"
 	}
 	if got != want {
 		return false, "decodes " + got + "(Entry.Key), want " + want + "(Entry.Key)"
 	}
 	return true, ""
+}
+
+// c24EntryKeyValue: v is a load of Entry.Key, possibly of an Entry passed by
+// value as a parameter or copied into a local.
+func c24EntryKeyValue(v ssa.Value) bool {
+	if c24IsEntryKeyLoad(v) {
+		return true
+	}
+	for _, r := range an.Roots(v, nil) {
+		if !c24IsEntryKeyLoad(r) {
+			return false
+		}
+	}
+	return true
 }
 
 // ---------------------------------------------------------------- O2 codec
@@ -744,33 +804,287 @@ func c24CheckCodec(c *an.Ctx, enc, dec *ssa.Function) {
 	}
 }
 
-// ---------------------------------------------------------------- O3 shape
+// ---------------------------------------------------------------- expansion through local helpers
 
-func c24KeyShape(call ssa.CallInstruction, sp []*ssa.Parameter) (bool, string) {
-	if len(sp) < 2 {
-		return false, "method has fewer than two string parameters"
-	}
-	encOf := func(v ssa.Value) ssa.Value {
-		cl, ok := v.(*ssa.Call)
-		if !ok || an.Callee(cl).Name != "encode" || an.Callee(cl).Recv != "" {
-			return nil
+// c24Env binds the parameters of fn to the argument values of one call site.
+type c24Env struct {
+	fn     *ssa.Function
+	args   []ssa.Value
+	parent *c24Env
+}
+
+// c24X is a value seen in a call context.
+type c24X struct {
+	v   ssa.Value
+	env *c24Env
+}
+
+// resolve follows parameter bindings up the call context.
+func (x c24X) resolve() c24X {
+	for i := 0; i < 8; i++ {
+		prm, ok := x.v.(*ssa.Parameter)
+		if !ok || x.env == nil || prm.Parent() != x.env.fn {
+			return x
 		}
-		return cl.Call.Args[0]
+		idx := -1
+		for k, q := range x.env.fn.Params {
+			if q == prm {
+				idx = k
+			}
+		}
+		if idx < 0 || idx >= len(x.env.args) {
+			return x
+		}
+		x = c24X{x.env.args[idx], x.env.parent}
 	}
-	recv := an.Recv(call)
-	nk, ok := an.IsCallTo(recv, an.M(c24Ds, "", "NewKey"))
-	if !ok {
-		return false, "receiver is not ds.NewKey(..)"
+	return x
+}
+
+func c24Local(fn *ssa.Function, ci an.CallInfo) *ssa.Function {
+	if ci.Static == nil || ci.Static.Blocks == nil || ci.Static.Pkg == nil {
+		return nil
 	}
-	k := encOf(nk.Call.Args[0])
-	v := encOf(an.Args(call)[0])
-	var parts []string
-	if k != sp[0] {
-		parts = append(parts, "NewKey argument is not encode("+sp[0].Name()+")")
+	if strings.TrimPrefix(ci.Static.Pkg.Pkg.Path(), an.Mod+"/") != c24Pkg {
+		return nil
 	}
-	if v != sp[1] {
-		parts = append(parts, "ChildString argument is not encode("+sp[1].Name()+")")
+	return ci.Static
+}
+
+// c24EffOps visits every go-datastore invoke executed by fn or by the local
+// functions it calls (depth-limited), with the call context.
+func c24EffOps(fn *ssa.Function, env *c24Env, depth int, visit func(ssa.CallInstruction, *c24Env)) {
+	if depth > 3 {
+		return
 	}
-	sort.Strings(parts)
-	return len(parts) == 0, strings.Join(parts, "; ")
+	for _, call := range an.AllCalls(fn) {
+		ci := an.Callee(call)
+		if ci.Invoke && strings.HasPrefix(ci.Pkg, c24Ds) {
+			visit(call, env)
+			continue
+		}
+		if h := c24Local(fn, ci); h != nil && h != fn && h != c24Enc && h != c24Dec {
+			c24EffOps(h, &c24Env{fn: h, args: call.Common().Args, parent: env}, depth+1, visit)
+		}
+	}
+}
+
+// c24Alts expands x into the alternatives it can denote: phi inputs and the
+// success-return operands of local helper calls.
+func c24Alts(x c24X, depth int) []c24X {
+	x = x.resolve()
+	if depth > 4 {
+		return []c24X{x}
+	}
+	switch v := x.v.(type) {
+	case *ssa.Phi:
+		var out []c24X
+		for _, e := range v.Edges {
+			out = append(out, c24Alts(c24X{e, x.env}, depth+1)...)
+		}
+		return out
+	case *ssa.UnOp:
+		if v.Op == token.MUL {
+			if _, isAlloc := v.X.(*ssa.Alloc); isAlloc {
+				var out []c24X
+				for _, r := range an.Roots(v, nil) {
+					if r == ssa.Value(v) {
+						return []c24X{x}
+					}
+					out = append(out, c24Alts(c24X{r, x.env}, depth+1)...)
+				}
+				if len(out) > 0 {
+					return out
+				}
+			}
+		}
+	case *ssa.Call, *ssa.Extract:
+		idx := 0
+		call, _ := v.(*ssa.Call)
+		if e, ok := v.(*ssa.Extract); ok {
+			idx = e.Index
+			call, _ = e.Tuple.(*ssa.Call)
+		}
+		if call == nil {
+			return []c24X{x}
+		}
+		ci := an.Callee(call)
+		h := c24Local(nil, ci)
+		if h == nil || h == c24Enc || h == c24Dec {
+			return []c24X{x}
+		}
+		env := &c24Env{fn: h, args: call.Call.Args, parent: x.env}
+		var out []c24X
+		for _, r := range an.Returns(h) {
+			k := len(r.Results)
+			if idx >= k {
+				continue
+			}
+			if k > 1 && an.IsErrorType(r.Results[k-1].Type()) && !an.IsNilConst(r.Results[k-1]) {
+				continue // error return: the value is not used by callers that check the error
+			}
+			out = append(out, c24Alts(c24X{r.Results[idx], env}, depth+1)...)
+		}
+		if len(out) > 0 {
+			return out
+		}
+	}
+	return []c24X{x}
+}
+
+// c24EncodeArg: x is encode(A) on every alternative; returns the alternatives of A.
+func c24EncodeArg(x c24X) ([]c24X, bool) {
+	var out []c24X
+	for _, a := range c24Alts(x, 0) {
+		call, ok := a.v.(*ssa.Call)
+		if !ok {
+			return nil, false
+		}
+		ci := an.Callee(call)
+		if ci.Static == nil || ci.Static != c24Enc {
+			return nil, false
+		}
+		out = append(out, c24Alts(c24X{call.Call.Args[0], a.env}, 0)...)
+	}
+	return out, len(out) > 0
+}
+
+// c24KeyKind classifies a datastore key: "pair" = NewKey(encode(P1)).ChildString(encode(P2))
+// with P1/P2 the first/second string parameter of the analysed method, "raw" =
+// NewKey(Entry.Key) of a query result, "" = neither.
+func c24KeyKind(x c24X, sp []*ssa.Parameter, depth int) (string, string) {
+	kind := ""
+	for _, a := range c24Alts(x, 0) {
+		call, ok := a.v.(*ssa.Call)
+		if !ok {
+			return "", "key is " + an.PathOf(a.v)
+		}
+		ci := an.Callee(call)
+		k := ""
+		switch {
+		case ci.Pkg == c24Ds && ci.Recv == "Key" && ci.Name == "ChildString":
+			if len(sp) < 2 {
+				return "", "pair key in a method without key and value parameters"
+			}
+			var parts []string
+			okK := false
+			for _, r := range c24Alts(c24X{call.Call.Args[0], a.env}, 0) {
+				nk, isNK := r.v.(*ssa.Call)
+				if !isNK || an.Callee(nk).Pkg != c24Ds || an.Callee(nk).Name != "NewKey" {
+					okK = false
+					break
+				}
+				as, isEnc := c24EncodeArg(c24X{nk.Call.Args[0], r.env})
+				okK = isEnc
+				for _, q := range as {
+					if q.v != ssa.Value(sp[0]) || q.env != nil {
+						okK = false
+					}
+				}
+				if !okK {
+					break
+				}
+			}
+			if !okK {
+				parts = append(parts, "NewKey argument is not encode("+sp[0].Name()+")")
+			}
+			as, isEnc := c24EncodeArg(c24X{call.Call.Args[1], a.env})
+			okV := isEnc
+			for _, q := range as {
+				if q.v != ssa.Value(sp[1]) || q.env != nil {
+					okV = false
+				}
+			}
+			if !okV {
+				parts = append(parts, "ChildString argument is not encode("+sp[1].Name()+")")
+			}
+			if len(parts) > 0 {
+				return "", strings.Join(parts, "; ")
+			}
+			k = "pair"
+		case ci.Pkg == c24Ds && ci.Name == "NewKey" && ci.Recv == "":
+			ok := true
+			for _, r := range c24Alts(c24X{call.Call.Args[0], a.env}, 0) {
+				if !c24EntryKeyValue(r.v) {
+					ok = false
+				}
+			}
+			if !ok {
+				return "", "NewKey of " + an.PathOf(call.Call.Args[0]) + " (a prefix or key component, not a stored pair)"
+			}
+			k = "raw"
+		default:
+			return "", "key is the result of " + ci.String()
+		}
+		if kind != "" && kind != k {
+			return "", "mixed key kinds"
+		}
+		kind = k
+	}
+	return kind, ""
+}
+
+// c24TouchesDs: functions that (transitively) invoke the datastore.
+func c24TouchesDs(fns []*ssa.Function) map[*ssa.Function]bool {
+	out := map[*ssa.Function]bool{}
+	for changed := true; changed; {
+		changed = false
+		for _, fn := range fns {
+			if out[fn] {
+				continue
+			}
+			for _, call := range an.AllCalls(fn) {
+				ci := an.Callee(call)
+				if (ci.Invoke && strings.HasPrefix(ci.Pkg, c24Ds)) || (ci.Static != nil && out[ci.Static]) {
+					out[fn] = true
+					changed = true
+					break
+				}
+			}
+		}
+	}
+	return out
+}
+
+// c24NonEmptyDeep: edges of fn on which string value v is known to be
+// non-empty: direct tests, plus the nil-error edge of a local validator h(.., v, ..)
+// all of whose nil returns lie behind a non-empty test of the corresponding parameter.
+func c24NonEmptyDeep(fn *ssa.Function, v ssa.Value, depth int) an.EdgeSet {
+	es := c24NonEmptyEdges(fn, v)
+	if depth > 2 {
+		return es
+	}
+	for _, call := range an.AllCalls(fn) {
+		h := c24Local(fn, an.Callee(call))
+		if h == nil || h == fn {
+			continue
+		}
+		errs := an.ErrResult(call)
+		if len(errs) == 0 {
+			continue
+		}
+		for i, a := range call.Common().Args {
+			if a != v || i >= len(h.Params) {
+				continue
+			}
+			he := c24NonEmptyDeep(h, h.Params[i], depth+1)
+			if len(he) == 0 {
+				continue
+			}
+			all, n := true, 0
+			for _, r := range an.Returns(h) {
+				k := len(r.Results)
+				if k == 0 || !an.IsNilConst(r.Results[k-1]) {
+					continue
+				}
+				n++
+				if !an.GuardedBy(h, nil, r, he) {
+					all = false
+				}
+			}
+			if all && n > 0 {
+				es = es.Union(an.NilEdges(fn, errs, true))
+			}
+		}
+	}
+	return es
 }
